@@ -51,7 +51,8 @@ def sortable_proxy(
                [3, 0]])
 
     """
-    poly = numpoly.aspolynomial(poly)
+    # the monomial order refers to the indeterminates in index order
+    (poly,) = numpoly.align_indeterminants(poly)
     coefficients = poly.coefficients
     proxy = numpy.tile(-1, poly.shape)
     largest = numpoly.lead_exponent(poly, graded=graded, reverse=reverse)
